@@ -108,7 +108,10 @@ class Session:
             install_uuid_shim()
         root = os.environ.get("VERIF_SCRATCH") or tempfile.gettempdir()
         self.scratch = tempfile.mkdtemp(prefix="s-", dir=root)
-        self._cfg = dask.config.set({"temporary_directory": self.scratch})
+        # default scheduler for every compute issued outside an explicit simulated run (nested planner
+        # computes during optimize()/lowering, len(), ...): never dask's real thread pool
+        self.default_sched = S.SimScheduler(S.World(**S.REFERENCE_WORLD), monitor=False, admission_check=False)
+        self._cfg = dask.config.set({"temporary_directory": self.scratch, "scheduler": self.default_sched.get})
         self._cfg.__enter__()
         self.totals = {"graphs": 0, "tasks": 0, "ticks": 0, "transfers": 0, "copies": 0, "gc_points": 0,
                        "faults_fired": 0, "executions": 0}
